@@ -68,7 +68,9 @@ def generate(seed, tier='quick'):
         pre = ['EHLO c.example']
         tx = rng.random() < 0.5
         if tx:
-            pre.append('MAIL FROM:<pre@a.example>')
+            pre.append(rng.choice(['MAIL FROM:<pre@a.example>',
+                                   'MAIL FROM:<pre@a.example>',
+                                   'MAIL FROM:<>']))
             if rng.random() < 0.6:
                 pre.append('RCPT TO:<prercpt@b.example>')
         scn['prefix'] = pre
@@ -117,7 +119,9 @@ def generate(seed, tier='quick'):
                               rng.randint(1, 9)})
             elif c < 0.8:
                 steps.append({'op': 'cmd',
-                              'line': 'MAIL FROM:<s@a.example>'})
+                              'line': rng.choice(['MAIL FROM:<s@a.example>',
+                                                  'MAIL FROM:<s@a.example>',
+                                                  'MAIL FROM:<>'])})
             elif c < 0.88:
                 steps.append({'op': 'cmd', 'line': rng.choice(
                     ['RSET', 'NOOP', 'RCPT TO:<r@b.example>'])})
